@@ -78,6 +78,10 @@ class Representer:
         self.__sweeten(dumper, self.class_, cnode)
         # __sweeten() checks this, so can cast safely
         represented = cast(yaml.Node, cnode.yaml_node)
+        # PyYAML remembered the unsweetened node for this object, make
+        # further references to the object use the sweetened one too
+        if id(data) in dumper.represented_objects:
+            dumper.represented_objects[id(data)] = represented
 
         logger.debug('End representing {}'.format(data))
         return represented
@@ -201,6 +205,9 @@ class UserStringRepresenter:
                          ' check your _yatiml_sweeten() function.'
                          ).format(self.class_.__name__))
             represented = snode.yaml_node
+            # as in Representer, for further references to the object
+            if id(data) in dumper.represented_objects:
+                dumper.represented_objects[id(data)] = represented
 
         logger.debug('End representing {}'.format(data))
         return represented
